@@ -96,6 +96,12 @@ chk("C19", "exploration",
     "Trusted: the graph model in harness/c19.go, the .dsc renderer, simos. Real code (instrumented copy): control.OrderDSCForBuild, ParseDscFile, dependency.GetPossibilities; pault.ag/go/topsort unmodified.",
     "DESIGN.md §5 C19")
 
+chk("C18", "exploration",
+    "deterministic simulation: 2..8 parser calls on mutated grammar-derived inputs run alone, then as tasks interleaved by a seeded scheduler at stream reads and at buggified loop heads/function entries of the instrumented parsers, then alone again; panics trapped, logical step budget for termination, value-and-error rule, result equality; plus a separate real-execution part under the Go race detector on the uninstrumented tree",
+    "Totality (no panic, deterministic step budget), 'never a usable value together with an error', independence of the result from interleaving inside the parsers (catches package-level scratch state), and repeat determinism are checked in simulation with exact replay. Data races are looked for by really running the same task sets in parallel under -race (GOMAXPROCS=16): that part is observation, not simulation, and is reported as such. Inputs are sampled (no coverage guidance): evidence, not proof.",
+    "Trusted: vinstr's Step insertion, JSON rendering for result comparison, the Go race detector. Real code: all parsers of version, dependency, control, changelog (instrumented copy for the simulation, unmodified tree for the race part).",
+    "DESIGN.md §5 C18")
+
 def main():
     props = [json.loads(l) for l in open(os.path.join(HERE, "properties.jsonl"))]
     ids = [p["id"] for p in props]
